@@ -11,7 +11,10 @@ the executable side condition `rtOK o vf T v`:
 * every struct type met satisfies `structOK o`: for each field, the key the encoder writes it under
   (tag name / exact name / lower-case style, under `o`) is one of the four names `recomp` tries for
   its index entry (index key, field name, first letter lowered, all lowered); no OTHER field's key
-  and not the create key is one of those names; no two fields are filed under one index key;
+  and not the create key is among the names the decoder ACTUALLY tries for it (`triedKeys`: in the
+  order of the source — the index key first —, only up to the field's own key when the field is always
+  written, and, since /repo 1029e85, without the fallback spellings that are the index key of another
+  field); no two fields are filed under one index key;
 * integers are inside the width of their slot; arrays have their length; a pointer points to a
   scalar, container or struct (not to a pointer or interface);
 * a field dropped by `omitempty` is dropped only when it is empty (that is what the encoder does) —
